@@ -7,6 +7,11 @@ From Iso Require Import Proofs.Tac Spec.Cal Model.Num Model.Helpers Model.Durati
   Proofs.TablesOk Proofs.GenCodeOk Proofs.GenCode2Ok Proofs.HelpersSpec Proofs.ConvSpec Proofs.TickSpec Proofs.GenCode4Base.
 Open Scope Z_scope.
 
+(* the code's and the model's equality tests, whichever way round they are written *)
+Ltac eqb_cases :=
+  repeat match goal with |- context [Z.eqb ?a ?b] => destruct (Z.eqb_spec a b) end;
+  first [reflexivity | exfalso; lia].
+
 Definition set_cal (o : pyTimePoint) (y m d : Z) : pyTimePoint :=
   set_day_of_month (set_month_of_year (set_year o (Some y)) (Some m)) (Some d).
 
@@ -226,7 +231,7 @@ Proof.
           with (l := ll) (s := ss) (j := Z.to_nat (1 - d)) (x := (m', d')) as (s' & E & I & C) end.
       * lia.
       * intros [n o'] [a b] I; cbn [fst snd] in *; subst o'. rewrite Hd. unfold opt_eqb.
-        replace (n + -1) with (n - 1) by lia. destruct (n - 1 =? d); reflexivity.
+        eqb_cases.
       * intros [n o'] x I. cbn [fst snd] in *. split; [exact I | lia].
       * intros; exact Logic.I.
       * reflexivity.
@@ -243,7 +248,7 @@ Proof.
           with (l := ll) (s := ss) as (s' & E & I & C) end.
       * lia.
       * intros [n o'] [a b] I; cbn [fst snd] in *; subst o'. rewrite Hd. unfold opt_eqb.
-        replace (n + -1) with (n - 1) by lia. destruct (n - 1 =? d); reflexivity.
+        eqb_cases.
       * intros [n o'] x I. cbn [fst snd] in *. split; [exact I | lia].
       * intros; exact Logic.I.
       * reflexivity.
@@ -266,7 +271,7 @@ Proof.
              with (l := ll) (s := ss) (j := Z.to_nat (n - d - 1)) (x := (m', d')) as (s' & E' & _ & C') end.
            ++ lia.
            ++ intros [[k mo'] da'] [a b] _. cbn [fst snd]. rewrite Hd. unfold opt_eqb.
-              replace (k + -1) with (k - 1) by lia. destruct (k - 1 =? d); reflexivity.
+              eqb_cases.
            ++ intros [[k mo'] da'] x _. cbn [fst snd]. split; [exact Logic.I | lia].
            ++ intros; exact Logic.I.
            ++ exact Logic.I.
@@ -286,7 +291,7 @@ Proof.
              with (l := ll) (s := ss) as (s' & E' & _ & C') end.
            ++ lia.
            ++ intros [[k mo'] da'] [a b] _. cbn [fst snd]. rewrite Hd. unfold opt_eqb.
-              replace (k + -1) with (k - 1) by lia. destruct (k - 1 =? d); reflexivity.
+              eqb_cases.
            ++ intros [[k mo'] da'] x _. cbn [fst snd]. split; [exact Logic.I | lia].
            ++ intros; exact Logic.I.
            ++ exact Logic.I.
@@ -319,7 +324,7 @@ Proof.
             with (l := ll) (s := ss) (j := Z.to_nat (d - 1)) (x := (m', d')) as (s' & E & I & C) end.
         -- lia.
         -- intros [n o'] [a b] I; cbn [fst snd] in *; subst o'. rewrite Hd. unfold opt_eqb.
-           destruct (n + 1 =? d); reflexivity.
+           eqb_cases.
         -- intros [n o'] x I. cbn [fst snd] in *. split; [exact I | lia].
         -- intros; exact Logic.I.
         -- reflexivity.
@@ -337,7 +342,7 @@ Proof.
             with (l := ll) (s := ss) as (s' & E & I & C) end.
         -- lia.
         -- intros [n o'] [a b] I; cbn [fst snd] in *; subst o'. rewrite Hd. unfold opt_eqb.
-           destruct (n + 1 =? d); reflexivity.
+           eqb_cases.
         -- intros [n o'] x I. cbn [fst snd] in *. split; [exact I | lia].
         -- intros; exact Logic.I.
         -- reflexivity.
@@ -360,7 +365,7 @@ Proof.
                 with (l := ll) (s := ss) (j := Z.to_nat (d - n - 1)) (x := (m', d')) as (s' & E' & I' & C') end.
               ** lia.
               ** intros [k o'] [a b] I'; cbn [fst snd] in *; subst o'. rewrite Hd. unfold opt_eqb.
-                 destruct (k + 1 =? d); reflexivity.
+                 eqb_cases.
               ** intros [k o'] x I'. cbn [fst snd] in *. split; [exact I' | lia].
               ** intros; exact Logic.I.
               ** reflexivity.
@@ -378,7 +383,7 @@ Proof.
                 with (l := ll) (s := ss) as (s' & E' & I' & C') end.
               ** lia.
               ** intros [k o'] [a b] I'; cbn [fst snd] in *; subst o'. rewrite Hd. unfold opt_eqb.
-                 destruct (k + 1 =? d); reflexivity.
+                 eqb_cases.
               ** intros [k o'] x I'. cbn [fst snd] in *. split; [exact I' | lia].
               ** intros; exact Logic.I.
               ** reflexivity.
